@@ -79,19 +79,38 @@ def run(facts, res):
         sites = [s for s in cg.sites[u.path] if s.callee is not None and s.callee.target() in
                  ("revisiontree::RevisionTree::add", "datastorage::DataStorage::write_object")]
         res.floor("U2", "tree add + object write in update_object", len(sites), 2)
+        from ..conds import all_edge_lits
+        from ..cfg import cfg_of as _cfg
+        ucfg = _cfg(u)
+        edges = all_edge_lits(u, facts)
+
+        def is_ne_true(l):
+            if not (l.kind == "call" and callee_name(l.term) in ("ne", "eq") and l.truth == (callee_name(l.term) == "ne")):
+                return False
+            a0, a1 = l.term[2][0], l.term[2][1]
+            return (contains_call(a0, "digest_object") and contains_call(a1, "get_winner")) or (contains_call(a1, "digest_object") and contains_call(a0, "get_winner"))
+
+        def is_array_true(l):
+            return l.kind == "call" and callee_name(l.term) == "is_array_descriptor" and l.truth is True
+        ne_edges = {e for e, l in edges if is_ne_true(l)}
+        arr_edges = {e for e, l in edges if is_array_true(l)}
+        some_edges = [e for e, l in edges if l.kind == "variant" and l.variants == {"Some"} and contains_call(l.term, "create_delta_array_descriptor")]
         for s in sites:
-            g_ne = g_some = False
-            for l in lits_of(u, s.block, facts):
-                if l.kind == "call" and callee_name(l.term) in ("ne", "eq") and l.truth == (callee_name(l.term) == "ne"):
-                    a0, a1 = l.term[2][0], l.term[2][1]
-                    if (contains_call(a0, "digest_object") and contains_call(a1, "digest") and contains_call(a1, "get_winner")) or \
-                            (contains_call(a1, "digest_object") and contains_call(a0, "digest") and contains_call(a0, "get_winner")):
-                        g_ne = True
-                if l.kind == "variant" and l.variants == {"Some"} and contains_call(l.term, "create_delta_array_descriptor"):
-                    g_some = True
-            res.instance("U2", "update_object: %s under digest != winner.digest (%s) and diff is Some (%s)" % (s.name(), g_ne, g_some), s.loc())
-            if not (g_ne and g_some):
-                res.violation("U2", "update_object|%s-without-change-test" % s.name(), "update_object calls %s without `digest != winner.digest` (%s) / without the non-empty-diff test (%s)" % (s.name(), g_ne, g_some), s.loc())
+            g_some = any(l.kind == "variant" and l.variants == {"Some"} and contains_call(l.term, "create_delta_array_descriptor") for l in lits_of(u, s.block, facts))
+            # plain objects: recorded only if the digest changed
+            plain_guarded = bool(ne_edges) and bool(some_edges) and not any(ucfg.reaches(se, s.block, avoid=ne_edges | arr_edges) for se in some_edges)
+            # array descriptors are stored as edit scripts against the winner: "unchanged" means "empty script" (the None
+            # edge), never "same digest as the previous script" - a non-empty script must always be recorded
+            array_recorded = bool(some_edges) and any(ucfg.reaches(se, s.block, avoid=ne_edges) for se in some_edges)
+            res.instance("U2", "update_object: %s: behind the non-empty-diff edge (%s); plain objects need digest != winner.digest (%s); a non-empty array edit script is recorded whatever its digest (%s)" % (
+                s.name(), g_some, plain_guarded, array_recorded), s.loc())
+            if not (g_some and plain_guarded):
+                res.violation("U2", "update_object|%s-without-change-test" % s.name(), "update_object calls %s without `digest != winner.digest` for plain objects (%s) / without the non-empty-diff test (%s)" % (s.name(), plain_guarded, g_some), s.loc())
+            if not array_recorded:
+                res.violation("U2", "update_object|%s-array-script-compared-by-digest" % s.name(),
+                              "update_object reaches %s only through `digest != winner.digest`, also for array descriptors: a descriptor is an edit script "
+                              "relative to the winner, so two successive identical scripts (e.g. removing the first element twice) have the same digest and the "
+                              "second edit is silently dropped" % s.name(), s.loc())
         cd = facts.body("melda::Melda::create_delta_array_descriptor")
         if cd is not None:
             ok_none = ok_some = False
@@ -110,7 +129,7 @@ def run(facts, res):
                 if t.callee is not None and t.callee.name == "make_diff_patch":
                     a0 = arg_term(cd, t, 0, 20)
                     a1 = arg_term(cd, t, 1, 20)
-                    base_ok = contains_call(a0, "rebuild_array_order") and contains_call(a0, "get_winner") and any(x[0] == "param" and x[2] == "obj" for x in walk(a1))
+                    base_ok = contains_call(a0, "rebuild_array_order") and contains_call(a0, "get_winner") and any(x[0] == "param" and x[1] == 2 for x in walk(a1))
             res.instance("U2", "create_delta_array_descriptor: None iff the edit script is empty (%s/%s); diff = (order at winner) -> (submitted order): %s" % (ok_none, ok_some, base_ok), cd.loc())
             if not (ok_none and ok_some and base_ok):
                 res.violation("U2", "create_delta_array_descriptor|none-iff-empty", "create_delta_array_descriptor: None on empty script: %s, Some otherwise: %s, diff(old = winner order, new = submitted): %s" % (ok_none, ok_some, base_ok), cd.loc())
